@@ -6,14 +6,15 @@
 // usage: xlate <repo>/kvstore/typedvalue.go OUT.lean
 //
 // Supported subset (everything else is a translation failure, exit status 1):
-//   statements  t.mutex.X() / defer t.mutex.X(); if [init;] cond {..} [else ..]; return e..;
-//               x, y := / = <call>   with <call> one of t.kv.Get/Has/Set/Delete(t.keyBytes[, y]), t.bytesToV(y),
-//               t.vToBytes(v), computeFunc(v, b), t.cachedValue();
-//               b = <bool expr>; t.valueCached = &v | nil; t.hasCached = &b | &truePtr | &falsePtr
-//   conditions  && || ! ( ), e != nil, e == nil, t.valueCached ==/!= nil, t.hasCached ==/!= nil, *t.hasCached,
-//               bool variables, true, false, ierrors.Is(e, ErrKeyNotFound | ErrTypedValueNotChanged)
-//   results     V variables, *t.valueCached, bool expressions, nil, error variables, the two sentinels,
-//               ierrors.Wrap(e, "msg")
+//
+//	statements  t.mutex.X() / defer t.mutex.X(); if [init;] cond {..} [else ..]; return e..;
+//	            x, y := / = <call>   with <call> one of t.kv.Get/Has/Set/Delete(t.keyBytes[, y]), t.bytesToV(y),
+//	            t.vToBytes(v), computeFunc(v, b), t.cachedValue();
+//	            b = <bool expr>; t.valueCached = &v | nil; t.hasCached = &b | &truePtr | &falsePtr
+//	conditions  && || ! ( ), e != nil, e == nil, t.valueCached ==/!= nil, t.hasCached ==/!= nil, *t.hasCached,
+//	            bool variables, true, false, ierrors.Is(e, ErrKeyNotFound | ErrTypedValueNotChanged)
+//	results     V variables, *t.valueCached, bool expressions, nil, error variables, the two sentinels,
+//	            ierrors.Wrap(e, "msg")
 //
 // Variables are numbered per declaration (go/parser's resolver: shadowing and if-scoped declarations get their own
 // numbers); 0 is the blank identifier.  Pointer facts checked here because the language models the cache pointers by
@@ -268,17 +269,24 @@ func (t *fnTr) mutexCall(e ast.Expr) (string, bool) {
 	return s.Sel.Name, true
 }
 
+var syncKinds = map[string]string{"RLock": ".rlock", "RUnlock": ".runlock", "Lock": ".lock", "Unlock": ".unlock",
+	"defer RUnlock": ".deferRUnlock", "defer Unlock": ".deferUnlock"}
+
 func (t *fnTr) stmt(s ast.Stmt, results []sort) string {
 	switch s := s.(type) {
 	case *ast.BlockStmt:
 		return t.block(s, results)
 	case *ast.ExprStmt:
 		if m, ok := t.mutexCall(s.X); ok {
-			return fmt.Sprintf("(.sync %q)", m)
+			if k, ok := syncKinds[m]; ok {
+				return "(.sync " + k + ")"
+			}
 		}
 	case *ast.DeferStmt:
 		if m, ok := t.mutexCall(s.Call); ok {
-			return fmt.Sprintf("(.sync %q)", "defer "+m)
+			if k, ok := syncKinds["defer "+m]; ok {
+				return "(.sync " + k + ")"
+			}
 		}
 	case *ast.IfStmt:
 		var parts []string
